@@ -3,7 +3,7 @@ use crate::document::{as_pos_range, DocumentRequest};
 use color_eyre::eyre::Result;
 use lsp_types::{Hover, HoverContents, HoverParams, MarkupContent, MarkupKind, Range as PosRange};
 use spl_frontend::{
-    table::{Entry, GlobalEntry, LookupTable, SymbolTable, TableEntry},
+    table::{Entry, GlobalEntry, SymbolTable, TableEntry},
     ToRange,
 };
 use tokio::sync::mpsc::Sender;
@@ -25,6 +25,7 @@ pub async fn hover(doctx: Sender<DocumentRequest>, params: HoverParams) -> Resul
     let doc_params = params.text_document_position_params;
     if let Some(cursor) = super::doc_cursor(doc_params, doctx).await? {
         if let Some(ident) = &cursor.ident() {
+            let global_position = cursor.is_global_position();
             let DocumentCursor { doc, context, .. } = cursor;
             if let Some(entry) = context {
                 match &entry {
@@ -37,10 +38,8 @@ pub async fn hover(doctx: Sender<DocumentRequest>, params: HoverParams) -> Resul
                         }
                     }
                     GlobalEntry::Procedure(p) => {
-                        let lookup_table = LookupTable {
-                            global_table: Some(&doc.table),
-                            local_table: Some(&p.local_table),
-                        };
+                        let lookup_table =
+                            super::lookup_table_for(&doc.table, &p.local_table, global_position);
                         if let Some(entry) = lookup_table.lookup(&ident.value) {
                             return Ok(Some(create_hover(
                                 &entry,
